@@ -2250,26 +2250,20 @@ static char* get_user_command () {
    */
   command_giver = ip->ob;
 
-  /*
-   * telnet option parsing and negotiation.
-   */
-  telnet_neg (buf, user_command);
-
-  /*
-   * move input buffer pointers to next command.
-   */
-  next_cmd_in_buf (ip);
-  if (!cmd_in_buf (ip))
-    ip->iflags &= ~CMD_IN_BUF;
-
-  if (s_next_user-- == 0)
-    s_next_user = max_users - 1; /* wrap around */
-
   if (ip->iflags & NOECHO)
     {
+      object_t *ob = ip->ob;
+
       /*
        * Must not enable echo before the user input is received.
+       *
+       * This is done while the command is still in the buffer, and the flag is
+       * cleared first: add_message() shows the text to a snooper, and his
+       * receive_snoop() can raise an error (we do not come back here; the command
+       * is served in the next cycle then, instead of being lost together with
+       * all the hidden lines after it) or take the connection away from the user.
        */
+      ip->iflags &= ~NOECHO;
       if (ip->connection_type == CONSOLE_USER)
         {
 #ifdef HAVE_TERMIOS_H
@@ -2284,8 +2278,29 @@ static char* get_user_command () {
         {
           add_message (command_giver, telnet_no_echo);
         }
-      ip->iflags &= ~NOECHO;
+      if (!IP_VALID (ip, ob))
+        {
+          /* ip is freed if the user was destructed: the turn is used up, there is
+           * nothing to execute (process_user_command() checks command_giver). */
+          buf[0] = '\0';
+          return buf;
+        }
     }
+
+  /*
+   * telnet option parsing and negotiation.
+   */
+  telnet_neg (buf, user_command);
+
+  /*
+   * move input buffer pointers to next command.
+   */
+  next_cmd_in_buf (ip);
+  if (!cmd_in_buf (ip))
+    ip->iflags &= ~CMD_IN_BUF;
+
+  if (s_next_user-- == 0)
+    s_next_user = max_users - 1; /* wrap around */
 
   ip->last_time = current_time;
   return buf;
